@@ -68,15 +68,17 @@
    Side conditions of these theorems: postings_syntactic dl (what the parser guarantees for
    account names, as in C02/C04/C05: C03_syntactic_sufficient; account_ok on posting accounts is
    discharged from it, the value-zero condition by the builder); account_ok a; the account is
-   shown as itself (shows_account: true without --mapping and --remap, C03_shows_account_plain)
-   and passes the --account/--commodity filters; the window is not empty and col is a period end.
+   shown as itself (shows_account: no mapping rule or remap moves it or another account onto it;
+   other accounts may be shortened, swapped or hidden; true without --mapping and --remap,
+   C03_shows_account_plain) and passes the --account/--commodity filters; the window is not empty and col is a period end.
 
    NOT PROVED (decided on every run by evaluating mtm_row / within_bound on the binary's output and
    by the byte-exact correspondence of the model):
    * the printed row: that the renderer's collapsed line of a valued row is the sum over the
      commodity keys of the node and the cumulative presentation over the columns (C02_row_cumulative
      gives the latter per key); value_cell here is the sum of the tree's cells;
-   * rows aggregated by --mapping / swapped by --remap (the sum over the accounts mapped onto a row);
+   * rows aggregated by --mapping / swapped by --remap (the sum over the accounts mapped onto a row;
+     accounts shown as themselves are covered whatever happens to the other accounts);
    * the tighter step count Spec.ValuationSpec.step_bound (a revaluation only on days with a price
      declaration); row_steps counts every journal day in the window;
    * that mtm_expected is Some whenever the run succeeds (C03_held_has_price gives it for the last
